@@ -160,7 +160,7 @@ pub fn scenarios(tier: Tier) -> Vec<Scenario> {
         v.push(Scenario {
             name,
             params: format!("{:?}", p),
-            opts: RunOpts::default(),
+            opts: opts_elide(),
             bound,
             body: Arc::new(move || body(pb.clone())),
             check: Arc::new(move |r| check_fold(r, reducers)),
